@@ -86,6 +86,18 @@ def scenarios(ctx, prop):
     for feats, n in sp['run']:
         for _ in range(max(1, n * ctx.scale // (1 if ctx.scale == 1 else 2))):
             out.append(core_gen.gen_run_scenario(ctx.rng, feats))
+    # about a quarter of the generated handlers are declared without the `event` parameter (`def h(self, *args, **kwargs)`):
+    # the dispatcher then calls them with the event's arguments only; the program they run is the same (a separate
+    # generator so that the scenario stream itself is unchanged; corpus scenarios are left as they were recorded)
+    r2 = random.Random(ctx.seed * 7919 + 4242 + int(prop[1:]))
+    for sc in out[len([c for c in ctx.corpus() if c.get('kind') == 'scenario']):]:
+        for c in sc.get('comps', []):
+            for h in c.get('handlers', []):
+                if r2.random() < 0.25:
+                    h['noev'] = True
+                    ctx.count('handler_signature', 'without-event-parameter')
+                else:
+                    ctx.count('handler_signature', 'with-event-parameter')
     return out
 
 
